@@ -834,7 +834,7 @@ func init() {
 			return &RunConfig{Clients: 0, Docs: 1, Projects: 2, Steps: 10 + r.IntN(30), SnapshotThreshold: 500, SnapshotInterval: 500, SnapshotCacheSize: 10,
 				Extra: map[string]int{"users": 1}}
 		},
-		Next: c13KeysNext,
+		Next:     c13KeysNext,
 		Monitors: func(rc *RunCtx) []Monitor { return []Monitor{&intruderMonitor{prop: "C13"}} },
 		Nontrivial: func(rc *RunCtx) bool {
 			p := rc.W.Stats.Probes
